@@ -564,3 +564,7 @@ def run(fb, rep, tier, cfg):
     r7d(fb, rep)
     r7e(fb, rep)
     r7f(fb, rep)
+    # the diagnostics of an importer must not depend on an earlier version of a module the VM has seen (seed C16-4): the salvaged
+    # type of a failing import comes from the re-run module_type query, not from a stale memo
+    from . import c15
+    c15.r6e(fb, rep)
